@@ -37,11 +37,11 @@ EXTENDS Integers, Sequences, FiniteSets, TLC
 
 CONSTANTS
   Meta,        \* [kind |-> Seq of [name, many, decl]]
-  Scenarios,   \* the scenarios this configuration explores
+  Scenarios,   \* Seq of the scenarios this configuration explores
   Dev          \* deviation clauses switched on
 
 VARIABLES
-  sc,       \* the scenario (never changes)
+  sid,      \* index of the scenario being run (never changes)
   pc,       \* "construct" "resolve" "endconstruction" "processors" "done" "failed"
   round,    \* resolution round about to run
   xr,       \* per file: reference ids in the order they were resolved
@@ -52,7 +52,9 @@ VARIABLES
   xrefs,    \* per file: _pos_crossref_list
   rdict     \* per file: _pos_rule_dict as an ordered list
 
-vars == <<sc, pc, round, xr, inited, calls, cont, err, xrefs, rdict>>
+vars == <<sid, pc, round, xr, inited, calls, cont, err, xrefs, rdict>>
+
+sc == Scenarios[sid]      \* the scenario
 
 ----------------------------------------------------------------------------
 \* generic helpers
@@ -60,9 +62,9 @@ Range(s) == {s[i] : i \in 1..Len(s)}
 Ids(n) == [i \in 1..n |-> i]
 RECURSIVE Cat(_)
 Cat(ss) == IF ss = <<>> THEN <<>> ELSE Head(ss) \o Cat(Tail(ss))
-RECURSIVE SetToSeq(_)
-SetToSeq(S) == IF S = {} THEN <<>>
-               ELSE LET x == CHOOSE x \in S : TRUE IN <<x>> \o SetToSeq(S \ {x})
+RECURSIVE SeqOfSet(_)
+SeqOfSet(S) == IF S = {} THEN <<>>
+               ELSE LET x == CHOOSE x \in S : TRUE IN <<x>> \o SeqOfSet(S \ {x})
 Count(s, P(_)) == Cardinality({i \in 1..Len(s) : P(s[i])})
 IndexIn(s, x) == CHOOSE i \in 1..Len(s) : s[i] = x
 
@@ -90,7 +92,7 @@ IsAnc(s, a, o) == LET p == Par(s, o) IN p # 0 /\ (p = a \/ IsAnc(s, a, p))
 RECURSIVE Depth(_, _)
 Depth(s, o) == IF Par(s, o) = 0 THEN 0 ELSE 1 + Depth(s, Par(s, o))
 \* span a contains the different span b
-Contains(a, b) == a # b /\ a[1] <= b[1] /\ b[2] <= a[2]
+SpanContains(a, b) == a # b /\ a[1] <= b[1] /\ b[2] <= a[2]
 
 ----------------------------------------------------------------------------
 \* C13: which processors are called for an object, and with what effect
@@ -186,7 +188,7 @@ MaxSched(s) == IF s.refs = <<>> THEN 0
 ResOrder(s, f) == Cat([q \in 1..(MaxSched(s) + 1) |->
                         SelectSeq(RefsOfFile(s, f), LAMBDA r : s.refs[r].sched = q - 1)])
 \* every round resolves something (otherwise the load fails: not a scenario of this module)
-ValidSchedule(s) == \A q \in 0..MaxSched(s) : \E r \in 1..Len(s.refs) : s.refs[r].sched = q
+ValidSchedule(s) == s.refs = <<>> \/ \A q \in 0..MaxSched(s) : \E r \in 1..Len(s.refs) : s.refs[r].sched = q
 
 XrefEntry(s, r, D) ==
   LET x == s.refs[r] t == s.objs[x.target] IN
@@ -210,14 +212,14 @@ DictBefore(a, b, D) ==
   \/ a[1] > b[1]
   \/ a[1] = b[1] /\ (IF "RuleDictReverseSort" \in D THEN a[2] > b[2] ELSE a[2] < b[2])
 RuleDictOf(s, f, D) ==
-  LET keys == SortSeq(SetToSeq({Span(s, o) : o \in FileObjs(s, f)}), LAMBDA a, b : DictBefore(a, b, D))
+  LET keys == SortSeq(SeqOfSet({Span(s, o) : o \in FileObjs(s, f)}), LAMBDA a, b : DictBefore(a, b, D))
   IN [i \in 1..Len(keys) |-> [start |-> keys[i][1], end |-> keys[i][2], obj |-> Holder(s, f, keys[i], D)]]
 RuleDict(s, D) == [f \in 1..NF(s) |-> RuleDictOf(s, f, D)]
 
 ----------------------------------------------------------------------------
 \* the state machine
 Init ==
-  /\ sc \in Scenarios
+  /\ sid \in 1..Len(Scenarios)
   /\ pc = "construct" /\ round = 0 /\ inited = FALSE /\ calls = <<>>
   /\ xr = [f \in 1..NF(sc) |-> <<>>]
   /\ cont = InitCont(sc)
@@ -233,7 +235,7 @@ Construct ==
   /\ IF FaultAt("match")
      THEN err' = ErrLoc(sc, Dev) /\ pc' = "failed"
      ELSE err' = err /\ pc' = "resolve"
-  /\ UNCHANGED <<sc, round, xr, inited, calls, cont, xrefs, rdict>>
+  /\ UNCHANGED <<sid, round, xr, inited, calls, cont, xrefs, rdict>>
 
 AllResolved == \A r \in 1..Len(sc.refs) : sc.refs[r].sched < round
 
@@ -245,13 +247,13 @@ ResolveRound ==
      ELSE /\ xr' = [f \in 1..NF(sc) |->
                       xr[f] \o SelectSeq(RefsOfFile(sc, f), LAMBDA r : sc.refs[r].sched = round)]
           /\ round' = round + 1 /\ pc' = pc
-  /\ UNCHANGED <<sc, inited, calls, cont, err, xrefs, rdict>>
+  /\ UNCHANGED <<sid, inited, calls, cont, err, xrefs, rdict>>
 
 \* _end_model_construction of every model: user objects get their __init__
 EndConstruction ==
   /\ pc = "endconstruction"
   /\ inited' = TRUE /\ pc' = "processors"
-  /\ UNCHANGED <<sc, round, xr, calls, cont, err, xrefs, rdict>>
+  /\ UNCHANGED <<sid, round, xr, calls, cont, err, xrefs, rdict>>
 
 Made(o) == Count(calls, LAMBDA c : c.obj = o)
 Finished(o) == Made(o) = Len(CallsOf(sc, o))
@@ -270,14 +272,14 @@ CallProcessor(o) ==
                            THEN LET k == SlotIdx(sc, o) j == IndexIn(Kids(sc, p, k), o) IN
                                 [cont EXCEPT ![p][k][j] = Result(sc, o)]
                            ELSE cont
-  /\ UNCHANGED <<sc, round, xr, inited, xrefs, rdict>>
+  /\ UNCHANGED <<sid, round, xr, inited, xrefs, rdict>>
 
 ToolSupport ==
   /\ pc = "processors" /\ \A o \in Objs(sc) : Finished(o)
   /\ xrefs' = [f \in 1..NF(sc) |-> XrefList(sc, xr[f], Dev)]
   /\ rdict' = RuleDict(sc, Dev)
   /\ pc' = "done"
-  /\ UNCHANGED <<sc, round, xr, inited, calls, cont, err>>
+  /\ UNCHANGED <<sid, round, xr, inited, calls, cont, err>>
 
 Next == \/ Construct \/ ResolveRound \/ EndConstruction
         \/ \E o \in Objs(sc) : CallProcessor(o)
@@ -386,7 +388,7 @@ C34_DictInnermost ==
 \* every span comes before all different spans that contain it
 C34_DictInnerFirst ==
   Done => \A f \in 1..NF(sc) : \A i, j \in 1..Len(rdict[f]) :
-            Contains(<<rdict[f][j].start, rdict[f][j].end>>, <<rdict[f][i].start, rdict[f][i].end>>) => i < j
+            SpanContains(<<rdict[f][j].start, rdict[f][j].end>>, <<rdict[f][i].start, rdict[f][i].end>>) => i < j
 \* ... and the list is sorted by position, later positions first
 C34_DictByStart ==
   Done => \A f \in 1..NF(sc) : \A i, j \in 1..Len(rdict[f]) : i < j => rdict[f][i].start >= rdict[f][j].start
